@@ -236,6 +236,12 @@ impl<M: Math, A: MassMatrixAdaptStrategy<M>> AdaptStrategy<M> for GlobalStrategy
                 let position = math.box_array(state.point().position());
                 self.step_size
                     .init(math, options, hamiltonian, &position, rng)?;
+                // If this happens on the last warmup draw, the search result (or the
+                // initial step size it falls back to) must not be what the posterior
+                // draws start with: install the averaged step size.
+                if draw == self.num_tune - 1 {
+                    self.step_size.update_stepsize(rng, hamiltonian, true);
+                }
             } else {
                 let is_last = draw == self.num_tune - 1;
                 self.step_size.update_stepsize(rng, hamiltonian, is_last)
